@@ -333,7 +333,7 @@ func genAggregateSelect(t *rapid.T, c *GenCtx, st *Stmt, o SelOpts) {
 	var aggRefs []*Node // names of earlier numeric aggregate fields
 	for i := 0; i < nagg; i++ {
 		e := genAggrExpr(t, c)
-		if len(aggRefs) > 0 && e.T != TyText && rapid.IntRange(0, 2).Draw(t, "aggUsesName") == 0 {
+		if len(aggRefs) > 0 && (e.T == TyInt || e.T == TyFloat) && rapid.IntRange(0, 2).Draw(t, "aggUsesName") == 0 {
 			// an aggregate field built on the name of an earlier one, as an
 			// operand or inside a function argument
 			r := rapid.SampledFrom(aggRefs).Draw(t, "aggName").Clone()
@@ -424,7 +424,22 @@ func genAggrExpr(t *rapid.T, c *GenCtx) *Node {
 	if a.T == TyText {
 		return a
 	}
-	switch rapid.IntRange(0, 5).Draw(t, "aggrArith") {
+	switch rapid.IntRange(0, 6).Draw(t, "aggrArith") {
+	case 6:
+		// a Boolean aggregate field; Boolean simplification with a constant
+		// side must leave it an aggregate field (one row per group)
+		cmp := Bin(rapid.SampledFrom([]string{">", "<=", "="}).Draw(t, "aggrCmp"), a, Int(int64(rapid.IntRange(0, 3).Draw(t, "aggrCmpLit"))))
+		switch rapid.IntRange(0, 4).Draw(t, "aggrBool") {
+		case 0:
+			return Bin("|", cmp, Bin("=", Int(1), Int(1)))
+		case 1:
+			return Bin("&", Bin("=", Int(1), Int(2)), cmp)
+		case 2:
+			return Bin("or", Bin("=", Int(1), Int(2)), cmp)
+		case 3:
+			return Bin("and", cmp, Bin(">", Call("count", Int(1)), Int(1)))
+		}
+		return cmp
 	case 0:
 		return Bin("+", a, Int(1))
 	case 1:
